@@ -97,6 +97,7 @@ W['C19/module_path_becomes_type'] = case('module-path-becomes-type', 8, [modent(
     extras=[[S('fseed'), 1], [S('observe-hint'), path('a', 'b')], [S('witness-module-path-becomes-type')]])
 W['C10/own_vftable_field'] = one(module(defs=[T('N', [], [vftable([], [fn(True, 'vf', [], [SELF], None)]), F('pv', ty_cptr(ty_id('NVftable')))])]),
     'own-vftable-in-field', ps=8, extras=[[S('witness-own-vftable-in-field')]])
+W['C13/copy_of_noncopy'] = one(module(defs=[T('P', [], [F('x', u32)]), T('D', [a_ident('copyable')], [F('f', ty_id('P'))])]), 'copy-of-noncopy', ps=8)
 W['C13/rename_clash'] = one(module(defs=[
     T('A', [], [F('x', u32)]), T('B', [], [F('y', u32)]),
     T('D', [], [F('a', ty_id('A'), [a_ident('base')]), F('b', ty_id('B'), [a_ident('base')])])],
